@@ -151,6 +151,9 @@ class RewardLaw:
 
     def _value(self, i, x):
         law, p, z = self.law, self.params, self._n(i)
+        if law == "explicit":
+            vals = p["values"]
+            return vals[i - 1] if i - 1 < len(vals) else 0.0
         if law == "const":
             return p.get("c", 0.5)
         if law == "noise":
